@@ -74,10 +74,11 @@ type Obj struct {
 
 // Op describes the operation a task is parked at.
 type Op struct {
-	Kind  string
-	Obj   *Obj
-	Site  string
-	Ready func() bool // nil: always enabled
+	Kind        string
+	Obj         *Obj
+	Site        string
+	Ready       func() bool // nil: always enabled
+	nonblocking bool        // a select with a default clause
 	// quiesce ops are only enabled by grant
 	quiesce bool
 	granted bool
